@@ -8,7 +8,8 @@ CONFIGS = [("gp_memb", {"VRT_MEMBARRIER": 2}), ("gp_mb", {}), ("gp_qsbr", {}), (
 RULE = ("every schedule (preemption / x86-TSO store-delay / fault / virtual-signal budget) of scenarios in which reader threads register, "
         "unregister, re-register, go offline/online (qsbr) or exit (bp) at every point of both scanning phases of a running "
         "synchronize_rcu(): rereg (two registrations around a grace period), leave_block (a thread that left then blocks forever must "
-        "not be waited for), churn (3-4 readers coming and going, late comers registering while the grace period runs; bp with an "
+        "not be waited for), late_register (a thread registers while the grace period waits for another reader with the registry lock dropped, "
+        "stays registered: it is in the registry afterwards - white-box walk - and the next grace period waits for its section), churn (3-4 readers coming and going, late comers registering while the grace period runs; bp with an "
         "initial registry capacity of 2 so the arena grows in place and - mremap failing - by a new chunk), slot_reuse (bp: sequential "
         "threads), sig (bp: a handler with a read-side section may hit lazy registration and thread exit); oracles: C01 litmus and "
         "interval oracles, C02 termination, bp reader slot address stable and never shared between live threads, slot of an exited "
@@ -35,6 +36,11 @@ def jobs(tier):
             J.append(Job(b, "leave_block", "1,1,0,0", dict(p1, offline=1), env, workers=8))
             for ur in (0, 1, 2):
                 J.append(Job(b, "qsbr", "2,0,0,0", dict(p1, updater_registered=ur), env, workers=8))
+        # a thread registers while the grace period waits for another reader and stays registered: present afterwards, waited for next time
+        J.append(Job(b, "late_register", "2,0,0,0" if q else "3,0,0,0", dict(p1, **cap), env, workers=8))
+        J.append(Job(b, "late_register", "1,1,0,0", dict(p1, yield_in_section=1, **cap), env, workers=8))
+        if not bp:
+            J.append(Job(b, "late_register", "2,0,0,0", dict(p1, updater_registered=1), env, workers=8))
         J.append(Job(b, "churn", "2,0,0,0" if q else "2,1,0,0", dict(p1, n=2, prestart=1, **cap), env, workers=8))
         J.append(Job(b, "churn", "2,0,0,0", dict(p1, n=3, prestart=1, **cap), env, workers=16))
         J.append(Job(b, "churn", "1,0,0,0" if q else "2,0,0,0", dict(p1, n=3, prestart=2, second_section=1, **cap), env, workers=16))
